@@ -152,7 +152,8 @@ def fast_cases(tier, seed=0):
                [[3, "U4", [1, 2, 1]], [2, "G3", [1, 1]]]]
         sp3 = [[[2, "uniform", 3], [2, "uniform", 4], [1, "uniform", 3]]]
     else:
-        sp2 = [[[p1, "uniform", n1], [p2, "uniform", n2]] for p1 in (1, 2, 3) for p2 in (1, 2, 3) for n1 in (2, 3, 5) for n2 in (2, 3, 5)]
+        sp2 = [[[p1, "uniform", n1], [p2, "uniform", n2]] for p1 in (1, 2, 3) for p2 in (1, 2, 3)
+               for n1, n2 in ((2, 2), (3, 3), (5, 5), (2, 5), (5, 3))]
         sp2 += [[[3, "uniform", 8], [3, "uniform", 8]], [[4, "uniform", 5], [1, "uniform", 7]], [[3, "U4", [1, 2, 1]], [2, "G3", [1, 1]]],
                 [[1, "U3", [1, 1]], [4, "U2", [2]]], [[2, "G4", [2, 1]], [2, "U4", [1, 1, 1]]]]
         sp3 = [[[p, "uniform", n]] * 3 for p in (1, 2) for n in (2, 3)]
@@ -162,18 +163,16 @@ def fast_cases(tier, seed=0):
     for which in ("mass", "stiffness"):
         for g in g2:
             for k, ax in enumerate(sp2):
-                for tol in TOLS:
-                    c = {"kind": "fast", "which": which, "geo": g, "axes": ax, "tol": tol}
-                    if tol == 1e-8 and k % (2 if quick else 12) == 1:
-                        c["exec"] = True       # second run in a newly exec'ed interpreter instead of a forked child
-                    cs.append(c)
+                c = {"kind": "fast", "which": which, "geo": g, "axes": ax, "tols": TOLS}
+                if k % (4 if quick else 10) == 1:
+                    c["exec"] = True       # second run in a newly exec'ed interpreter instead of a forked child
+                cs.append(c)
         for g in g3:
             for k, ax in enumerate(sp3):
-                for tol in TOLS:
-                    c = {"kind": "fast", "which": which, "geo": g, "axes": ax, "tol": tol}
-                    if tol == 1e-6 and k == 0:
-                        c["exec"] = True
-                    cs.append(c)
+                c = {"kind": "fast", "which": which, "geo": g, "axes": ax, "tols": TOLS}
+                if k == 0:
+                    c["exec"] = True
+                cs.append(c)
     return cs
 
 
